@@ -517,10 +517,7 @@ func (e *Env) c10Tags() {
 		okL := true
 		nRange := 0
 		for _, la := range iterLoops(gf, n) {
-			if kind, _ := core.HeaderTest(la.L); kind != "range" {
-				continue
-			}
-			nRange++
+			nRange++ // a range loop, or a counted loop over a sorted key slice
 			if !e.forAllIn(ob2, gf, la, n, func(m *core.Node) bool { return m == n }, core.Scenario{}, "derivation of task tags") {
 				okL = false
 			}
